@@ -175,6 +175,8 @@ def readContent (env : Env) (cfg : Config) (st : St) (length : Nat) (encoding : 
   let content := st.rest.take length
   let rest := st.rest.drop length
   if content.isEmpty then throw perr
+  -- not in the code (D12): only when the model switch is on
+  if cfg.strictLength && content.length < length then throw perr
   -- `if line_endings:` (truthiness: the int 0 is falsy)
   let leGiven : Option OptVal := match lineEndings with
     | some (.int 0) => none
